@@ -16,15 +16,26 @@ pub struct PanicRec {
     pub line: u32,
     pub msg: String,
     pub seq: u64,
+    /// fingerprint of the source line at the panic location (survives edits that only move lines). Empty if unreadable.
+    pub func: String,
 }
 
 impl PanicRec {
     pub fn in_repo(&self) -> bool {
         self.file.starts_with("/repo/")
     }
+    /// Identity of the panic site used in signatures: file + fingerprint of the source line (not the line number, which
+    /// moves with every unrelated edit above it).
     pub fn site(&self) -> String {
         let f = self.file.trim_start_matches("/repo/");
-        format!("{}:{}", f, self.line)
+        if self.func.is_empty() {
+            format!("{}:{}", f, self.line)
+        } else {
+            format!("{}@{}", f, self.func)
+        }
+    }
+    pub fn site_line(&self) -> String {
+        format!("{}:{}", self.file.trim_start_matches("/repo/"), self.line)
     }
     /// message with numbers, quoted strings and addresses removed
     pub fn norm_msg(&self) -> String {
@@ -73,9 +84,10 @@ pub fn install_panic_hook(verbose: bool) {
             "<non-string panic payload>".to_string()
         };
         let thread = std::thread::current().name().unwrap_or("<unnamed>").to_string();
-        let rec = PanicRec { thread, file, line, msg, seq: PANIC_SEQ.fetch_add(1, Ordering::SeqCst) };
+        let func = enclosing_function(&file, line);
+        let rec = PanicRec { thread, file, line, msg, seq: PANIC_SEQ.fetch_add(1, Ordering::SeqCst), func };
         if VERBOSE.load(Ordering::SeqCst) {
-            eprintln!("[panic] thread={} at {}:{}: {}", rec.thread, rec.file, rec.line, rec.msg.lines().next().unwrap_or(""));
+            eprintln!("[panic] thread={} at {}:{}: {} [site={}]", rec.thread, rec.file, rec.line, rec.msg.lines().next().unwrap_or(""), rec.site());
             if std::env::var("LVERIF_BT").is_ok() {
                 eprintln!("{}", std::backtrace::Backtrace::force_capture());
             }
@@ -86,6 +98,51 @@ pub fn install_panic_hook(verbose: bool) {
             }
         }
     }));
+}
+
+static FUNC_CACHE: Mutex<Vec<((String, u32), String)>> = Mutex::new(Vec::new());
+
+/// Content address of a panic site: FNV-1a of the trimmed source line the panic location points at. It names one call
+/// site, does not move when unrelated lines are added above it, and does not depend on optimisation level or inlining.
+fn enclosing_function(file: &str, line: u32) -> String {
+    if !file.starts_with("/repo/") {
+        return String::new();
+    }
+    if let Ok(c) = FUNC_CACHE.lock() {
+        if let Some(hit) = c.iter().find(|e| e.0 .0 == file && e.0 .1 == line) {
+            return hit.1.clone();
+        }
+    }
+    let mut found = String::new();
+    if let Ok(text) = std::fs::read_to_string(file) {
+        let lines: Vec<&str> = text.lines().collect();
+        let idx = line.saturating_sub(1) as usize;
+        if idx < lines.len() {
+            // a short line (".unwrap();", "}") says little: take the lines above it in until there is some text
+            let mut t = String::new();
+            let mut k = idx as isize;
+            while k >= 0 && idx as isize - k < 3 {
+                let part: String = lines[k as usize].split_whitespace().collect::<Vec<_>>().join(" ");
+                t = if t.is_empty() { part } else { format!("{} {}", part, t) };
+                if t.len() >= 24 {
+                    break;
+                }
+                k -= 1;
+            }
+            let mut h: u32 = 0x811c9dc5;
+            for b in t.bytes() {
+                h ^= b as u32;
+                h = h.wrapping_mul(0x01000193);
+            }
+            found = format!("{:08x}", h);
+        }
+    }
+    if let Ok(mut c) = FUNC_CACHE.lock() {
+        if c.len() < 2000 {
+            c.push(((file.to_string(), line), found.clone()));
+        }
+    }
+    found
 }
 
 pub fn take_panics() -> Vec<PanicRec> {
@@ -236,7 +293,7 @@ where
                     "panic",
                     &format!("panic@{}", p.site()),
                     &feat,
-                    format!("thread={} msg={}", p.thread, p.msg.lines().take(3).collect::<Vec<_>>().join(" / ")),
+                    format!("thread={} at {} msg={}", p.thread, p.site_line(), p.msg.lines().take(3).collect::<Vec<_>>().join(" / ")),
                     case_json.clone(),
                 ));
             }
@@ -307,5 +364,5 @@ fn blocked_class(op: &str) -> String {
 }
 
 pub fn panics_json(ps: &[PanicRec]) -> J {
-    json!(ps.iter().map(|p| json!({"thread": p.thread, "site": p.site(), "msg": p.msg.lines().next().unwrap_or("")})).collect::<Vec<_>>())
+    json!(ps.iter().map(|p| json!({"thread": p.thread, "site": p.site(), "line": p.site_line(), "msg": p.msg.lines().next().unwrap_or("")})).collect::<Vec<_>>())
 }
